@@ -12,6 +12,8 @@ def classify(ev):
     t = ev["text"].lower()
     if ev.get("panic"):
         return "panic"
+    if ev.get("unrepresentable") and ev.get("accepted"):
+        return "accepted-in-part/%s" % ("lexical-garbage" if ev.get("class") == "lexical-garbage" else "unrepresentable-number")
     rule = None
     if any(m.startswith("n:f") for m in ev.get("missing", [])):
         rule = "float-literal"
